@@ -340,6 +340,43 @@ def run(rep: Report, tier: str) -> None:
                                 f"DS_1 {_what} DS_2 with M nullable={_ln} on the left and nullable={_rn} on the right: the result measure is {[(c_.name, c_.nullable) for c_ in _ms]}; it must be "
                                 f"nullable={_ln or _rn} (a null on either side gives a null result): the returned structure otherwise declares a non-nullable measure whose data has nulls"))
     rep.floor("R10.8 cases", _n8, 8)
+    # ---- R10.9: if-then-else over components: the result is nullable iff a branch can deliver a null ----
+    rep.rule("R10.9", "if-then-else at component level: the result component is nullable iff the then- or the else-operand is a nullable component or the null literal (If.validate evaluated)")
+    _fif = P.func("vtlengine.Operators.Conditional.If.validate")
+    _DT = "vtlengine.DataTypes"
+    from sa.e6 import ClassVal as _CV, Interp as _I9, Raised as _R9
+
+    def _branch(kind: str) -> Any:
+        if kind == "comp-nullable":
+            return _sm.MComp("Me_a", _M.roles["MEASURE"], _CV(f"{_DT}.Number"), True)
+        if kind == "comp-not-null":
+            return _sm.MComp("Me_b", _M.roles["MEASURE"], _CV(f"{_DT}.Number"), False)
+        if kind == "scalar":
+            return _sm.MNode("Scalar", name="sc", data_type=_CV(f"{_DT}.Number"), value=1, nullable=False)
+        return _sm.MNode("Scalar", name="null", data_type=_CV(f"{_DT}.Null"), value=None, nullable=True)
+    _n9 = 0
+    for _tk in ("comp-nullable", "comp-not-null", "scalar", "null-literal"):
+        for _ek in ("comp-nullable", "comp-not-null", "scalar", "null-literal"):
+            if _tk in ("scalar", "null-literal") and _ek in ("scalar", "null-literal"):
+                continue  # at component level at least one branch is a component
+            _cond = _sm.MComp("cond", _M.roles["MEASURE"], _CV(f"{_DT}.Boolean"), False)
+            _ext = {"VirtualCounter._new_ds_name": lambda: "__DS__", "VirtualCounter._new_dc_name": lambda: "__DC__", "isinstance": _sm._isinstance,
+                    "DataComponent": lambda **kw: _sm.MComp(kw["name"], kw.get("role"), kw.get("data_type"), kw.get("nullable", True)),
+                    "binary_implicit_promotion": lambda a, b, *r: a if getattr(a, "short", "") != "Null" else b}
+            try:
+                _res = _I9(P, externals=_ext).call(_fif, {"condition": _cond, "true_branch": _branch(_tk), "false_branch": _branch(_ek)}, bound_cls=_CV("vtlengine.Operators.Conditional.If"))
+            except _Unm8 as e:
+                raise AnalysisError(f"R10.9: If.validate outside the evaluator's language: {e}")
+            except _R9 as e:
+                raise AnalysisError(f"R10.9: If.validate raised {e.exc} for then={_tk}, else={_ek}")
+            _want = "nullable" in (_tk + _ek).replace("not-null", "") or "null-literal" in (_tk, _ek)
+            _n9 += 1
+            rep.instance("R10.9", f"if/{_tk}/{_ek}", nontrivial=True, sample={"then": _tk, "else": _ek, "nullable": getattr(_res, "nullable", None)})
+            if getattr(_res, "nullable", None) != _want:
+                rep.add(Finding("R10.9", f"R10.9/if/{_tk}/{_ek}", _fif.module.rel, _fif.node.lineno, _fif.qualname,
+                                f"if cond then <{_tk}> else <{_ek}> at component level: the result is declared nullable={getattr(_res, 'nullable', None)}; it must be nullable={_want} "
+                                f"(a null in either branch reaches the result): the returned structure otherwise promises a non-nullable component whose data has nulls - and `calc identifier` accepts it"))
+    rep.floor("R10.9 cases", _n9, 10)
     # ---- R10.6: membership DS#comp: validator == structure builder == SELECT list (finite model) ----
     rep.rule("R10.6", "membership: the components semantic analysis declares == the transpiler's intermediate structure == the columns the SQL selects")
     from sa.e6 import Unmodelled as _Unm
